@@ -1,4 +1,4 @@
-HOOK_COMMITS = ["a1cfaae", "517d757", "cfa1599"]
+HOOK_COMMITS = ["a1cfaae", "517d757", "cfa1599", "5cec95c"]
 
 META = {
     "C01": dict(
